@@ -14,5 +14,6 @@ def install_all(reg):
     succession_diagram._install_skip(reg)
     succession_diagram._install_skip2(reg)
     succession_diagram._install_skip3(reg)
+    succession_diagram._install_skip4(reg)
     algorithms.install(reg)
     algorithms.install_skipnode(reg)
